@@ -318,6 +318,7 @@ fn check_arcs(r: &mut Report) {
         let a3 = Arc2::circle_point_angle(p(cx, cy), rad, circle_pt(cx, cy, rad, a0), sw);
         r.check(near(&a2.start(), &arc.start(), scale) && near(&a2.end(), &arc.end(), scale) && near(&a3.start(), &arc.start(), scale) && near(&a3.end(), &arc.end(), scale) && a3.angle == sw && a2.angle == sw, "to_partial_arc and circle_point_angle build the same arc as circle_angles", || what.clone());
         check_arc_box(r, &a3, &format!("circle_point_angle form of {}", what));
+        check_arc_box(r, &a2, &format!("Circle2::to_partial_arc form of {}", what));
     } } } }
     // circles: box == [c - r, c + r]; full arc of a circle
     for (cx, cy) in centres { for rad in radii {
@@ -332,6 +333,54 @@ fn check_arcs(r: &mut Report) {
     } }
 }
 
+// ---------------------------------------------------------------- round 4: LONG sweeps (>= 270 degrees) through EVERY arc constructor
+/// arcs whose sweep is at least three quarter turns but which still leave out one axis extreme of the circle (start 30
+/// degrees, sweep +300 degrees misses angle 0), and long arcs that pass all four: built by Arc2::circle_angles,
+/// Circle2::to_partial_arc, Arc2::circle_point_angle, Arc2::three_points (start, middle and end point of the sweep) and,
+/// for the contact arcs of the airfoil code, InscribedCircle::contact_arc (two contact points 20 .. 90 degrees apart, the
+/// direction vector pointing away from / into the gap between them)
+fn check_long_arcs(r: &mut Report) {
+    use crate::airfoil::InscribedCircle;
+    use crate::geom2::polyline2::SpanningRay;
+    use crate::geom2::{UnitVec2, Vector2};
+    let centres = [(0.0, 0.0), (3.0, -2.0), (-50.0, 75.0)];
+    let radii = [0.25, 2.0, 7.5];
+    let starts = [30.0, 120.0, 210.0 - 360.0, 300.0 - 360.0, 45.0, 135.0, -135.0, -45.0, 10.0, 100.0, -170.0, -80.0, 0.0, 90.0, 180.0, -90.0];
+    let sweeps = [270.0, 275.0, 285.0, 300.0, 315.0, 330.0, 345.0, 359.0];
+    let mut missing_one = 0usize;
+    for (cx, cy) in centres { for rad in radii { for a0d in starts { for swd in sweeps { for sign in [1.0, -1.0] {
+        let (a0, sw): (f64, f64) = ((a0d as f64).to_radians(), (sign * swd as f64).to_radians());
+        r.case();
+        // does the sweep leave out an axis extreme?  (multiples of 90 degrees strictly outside the swept interval)
+        let (lo, hi) = if sign > 0.0 { (a0d, a0d + swd) } else { (a0d - swd, a0d) };
+        if (-8..=8).filter(|k| { let q = *k as f64 * 90.0; q >= lo && q <= hi }).count() < 4 { missing_one += 1; }
+        let what = format!("centre ({:?}, {:?}) r {:?}, start {:?} degrees, sweep {:?} degrees", cx, cy, rad, a0d, sign * swd);
+        let c = Circle2::new(cx, cy, rad);
+        check_arc_box(r, &Arc2::circle_angles(p(cx, cy), rad, a0, sw), &format!("Arc2::circle_angles, {}", what));
+        check_arc_box(r, &c.to_partial_arc(a0, sw), &format!("Circle2::to_partial_arc, {}", what));
+        check_arc_box(r, &Arc2::circle_point_angle(p(cx, cy), rad, circle_pt(cx, cy, rad, a0), sw), &format!("Arc2::circle_point_angle, {}", what));
+        let t = Arc2::three_points(circle_pt(cx, cy, rad, a0), circle_pt(cx, cy, rad, a0 + 0.5 * sw), circle_pt(cx, cy, rad, a0 + sw));
+        r.check((t.angle - sw).abs() <= 1e-6, "three-point arc through the start, middle and end point of a long sweep has that sweep", || format!("Arc2::three_points, {} -> angle0 {:?} sweep {:?}", what, t.angle0, t.angle));
+        check_arc_box(r, &t, &format!("Arc2::three_points (start, middle, end of the sweep), {}", what));
+    } } } } }
+    r.check(missing_one >= 800, "input space: long sweeps (>= 270 degrees) that leave out one axis extreme occur", || format!("{} of them", missing_one));
+    // contact arcs
+    let mut long_contact = 0usize;
+    for (cx, cy) in centres { for rad in radii { for ud in [30.0, 100.0, -170.0, -80.0, 45.0, 0.0, 179.0] { for gap in [20.0, 60.0, 75.0, 90.0] { for gsign in [1.0, -1.0] { for dsign in [1.0, -1.0] {
+        let (u, l): (f64, f64) = ((ud as f64).to_radians(), (ud as f64 + gsign * gap as f64).to_radians());
+        let (pu, pl) = (circle_pt(cx, cy, rad, u), circle_pt(cx, cy, rad, l));
+        let mid = 0.5 * (u + l);
+        // the direction: along the bisector of the gap (dsign = 1: into the gap, short arc) or away from it (long arc)
+        let dir = UnitVec2::new_normalize(Vector2::new(dsign * mid.cos(), dsign * mid.sin()));
+        let ic = InscribedCircle::new(SpanningRay::new(pl, pu), pu, pl, Circle2::new(cx, cy, rad));
+        r.case();
+        let arc = ic.contact_arc(&dir);
+        if arc.angle.abs() >= 1.5 * PI { long_contact += 1; }
+        let what = format!("InscribedCircle::contact_arc (circle ({:?}, {:?}, r {:?}), contact points at {:?} and {:?} degrees, direction {:?}) -> angle0 {:?} sweep {:?}", cx, cy, rad, ud, ud + gsign * gap, (dir.x, dir.y), arc.angle0, arc.angle);
+        check_arc_box(r, &arc, &what);
+    } } } } } }
+    r.check(long_contact >= 100, "input space: contact arcs with a sweep of at least 270 degrees occur", || format!("{} of them", long_contact));
+}
 
 // ---------------------------------------------------------------- cached boxes of circles from EVERY producer
 /// the statement's clause for circles: the cached box contains the circle and touches it on all four sides, i.e. it is
@@ -434,13 +483,14 @@ fn check_circle_boxes(r: &mut Report) {
 }
 
 pub fn run() -> Option<Report> {
-    let mut r = Report::new("circle pairs: 3 centres x 12 offsets (centre distances 0, 0.5, 1, 2, 3, 4, 5, 8, 10, 13, sqrt 2, ...) x 8 x 8 radii (separate, nested, internally / externally tangent, equal radii, concentric; within 1e-6 of tangency excluded unless exact); tangent points: 4 circles x 6 directions x d/r in {1+1e-9, 1+1e-6, 1.001, 1.1, sqrt 2, 2, 3, 10, 1e3} and points on / inside the perimeter; outer tangents: 2 centres x 10 offsets x 6 x 6 radii; segments: 4 circles x 40 segments (exactly tangent, chords, partial, inside, outside) in both senses, 3 polylines x 25 circles; three-point arcs: all ordered triples of the 12 integer points of the radius-5 circle x 3 centres; arcs: 3 centres x 3 radii x 18 start angles x 40 signed sweeps in [-2pi, 2pi] (box checked against both ends, the axis extremes inside the sweep and 720 samples); cached boxes of circles from every producer: new / from_point / clone (5 centres x 6 radii), from_3_points (every fifth ordered triple of the 12 integer points of the radius-5 circle x 5 centres x 3 scales), fitting_circle -> fit_circle (4 circles x 4 / 7 / 12 / 36 exact samples over a full turn or 3.5 rad x 5 initial guesses different from the answer x BestFit::All / Gaussian(3)), ransac (2 circles, 24 points + 3 outliers, 3 parameter sets), the circle field of arcs from circle_angles / circle_point_angle / three_points / to_arc / to_partial_arc");
+    let mut r = Report::new("circle pairs: 3 centres x 12 offsets (centre distances 0, 0.5, 1, 2, 3, 4, 5, 8, 10, 13, sqrt 2, ...) x 8 x 8 radii (separate, nested, internally / externally tangent, equal radii, concentric; within 1e-6 of tangency excluded unless exact); tangent points: 4 circles x 6 directions x d/r in {1+1e-9, 1+1e-6, 1.001, 1.1, sqrt 2, 2, 3, 10, 1e3} and points on / inside the perimeter; outer tangents: 2 centres x 10 offsets x 6 x 6 radii; segments: 4 circles x 40 segments (exactly tangent, chords, partial, inside, outside) in both senses, 3 polylines x 25 circles; three-point arcs: all ordered triples of the 12 integer points of the radius-5 circle x 3 centres; arcs: 3 centres x 3 radii x 18 start angles x 40 signed sweeps in [-2pi, 2pi] (box checked against both ends, the axis extremes inside the sweep and 720 samples); cached boxes of circles from every producer: new / from_point / clone (5 centres x 6 radii), from_3_points (every fifth ordered triple of the 12 integer points of the radius-5 circle x 5 centres x 3 scales), fitting_circle -> fit_circle (4 circles x 4 / 7 / 12 / 36 exact samples over a full turn or 3.5 rad x 5 initial guesses different from the answer x BestFit::All / Gaussian(3)), ransac (2 circles, 24 points + 3 outliers, 3 parameter sets), the circle field of arcs from circle_angles / circle_point_angle / three_points / to_arc / to_partial_arc; ROUND 4: the arc box clause for the circle_angles, circle_point_angle AND to_partial_arc form of every arc of the grid, and LONG sweeps through every constructor: 3 centres x 3 radii x 16 start angles x sweeps +-{270, 275, 285, 300, 315, 330, 345, 359} degrees (most of them leave out one axis extreme) built by circle_angles / to_partial_arc / circle_point_angle / three_points, and InscribedCircle::contact_arc for contact points 20 .. 90 degrees apart at 7 positions with the direction into / away from the gap");
     check_circle_pairs(&mut r);
     check_tangent_points(&mut r);
     check_outer_tangents(&mut r);
     check_lines(&mut r);
     check_three_point_arcs(&mut r);
     check_arcs(&mut r);
+    check_long_arcs(&mut r);
     check_circle_boxes(&mut r);
     Some(r)
 }
